@@ -179,6 +179,19 @@ class C15(Prop):
         yield "special-texts", lines
         n = 30000 if tier == "thorough" else 5000
         yield "random-multi-segment", [d_case([rand_seg(rng) for _ in range(rng.randint(1, 5))]) for _ in range(n)]
+        # several segments, one of them (first, inner or LAST) with a text that is special on its own: a lone newline,
+        # CR LF, empty, blank, a lone '.', a lone apostrophe, a lone backslash -- in a plain or a styled segment
+        lone = ["\n", "\r\n", "", " ", ".", "'", "\\", "-", "\n\n", " \n", "x\n", "\n."]
+        lines = []
+        for t in lone:
+            for pos in ("first", "inner", "last"):
+                for plain in (True, False):
+                    for _ in range(3 if tier == "thorough" else 1):
+                        special = ("", None, None, t) if plain else (rng.choice(["1", "3", ""]), rng.choice([None, 1, 9]), rng.choice([None, 4]), t)
+                        others = [rand_seg(rng) for _ in range(rng.randint(1, 3))]
+                        segs = [special] + others if pos == "first" else others + [special] if pos == "last" else others[:1] + [special] + others[1:] + [rand_seg(rng)]
+                        lines.append(d_case(segs))
+        yield "special-text-at-a-segment-position", lines
         # neighbouring segments that are identical (same text, same style) must both appear
         lines = []
         for _ in range(n // 10):
